@@ -74,8 +74,10 @@ def buf_some(t):
     return None
 
 
-def paths(ctx):
+def paths(ctx, remap=None):
     facts = ctx.facts
+    if remap:
+        ctx = _Remap(ctx, remap)
     fn, lv = leaves(ctx, conn.TRY_WRITE)
     ctx.ob("R06.1", "no-cycle", not fn.cycles(), "try_write has no CFG cycle (cycles: %s)" % fn.cycles(), fn.loc(0))
     seen = set()
@@ -248,3 +250,21 @@ def fifo(ctx, rule, field, allowed, floor=3):
         if w[3] in ("assign", "assign-inside", "call-result"):
             ctx.fail(rule, "%s|overwritten|%s" % (field, w[0]), "self.%s is overwritten in %s" % (field, w[0]), w[2])
     ctx.ob(rule, "%s|floor" % field, n >= floor, "%d mutable uses of self.%s inspected (floor %d)" % (n, field, floor))
+
+
+class _Remap:
+    """Report the obligations of shared rules under another property's rule id."""
+
+    def __init__(self, ctx, rule):
+        self._ctx = ctx
+        self._rule = rule
+        self.facts = ctx.facts
+
+    def ob(self, rule, key, ok, msg, loc=None, witness=None):
+        return self._ctx.ob(self._rule, "%s|%s" % (rule, key), ok, msg, loc, witness)
+
+    def fail(self, rule, key, msg, loc=None, witness=None):
+        return self._ctx.fail(self._rule, "%s|%s" % (rule, key), msg, loc, witness)
+
+    def __getattr__(self, name):
+        return getattr(self._ctx, name)
